@@ -157,7 +157,7 @@ Definition tab_mismatches (rs : list tabrow) : list N :=
 Definition check_repaired_point (c : case) : bool :=
   forallb (fun s =>
              Bool.eqb (eval_rbac (re_of (sm_re s))
-                                 (translate_repaired (k_cfg c) (k_ixns c) (k_dflt c) (k_http c))
+                                 (translate (k_cfg c) (k_ixns c) (k_dflt c) (k_http c))
                                  (sm_conn s) (sm_req s))
                       (sm_want s))
           (k_samples c).
@@ -171,18 +171,3 @@ Record fcase := FCase { f_shadow : bool; f_case : case }.
 Definition finding_mismatches (fs : list fcase) : list N :=
   map (fun i => (2000000 + i)%N) (failing (fun f => check_finding (f_shadow f) (f_case f)) fs).
 
-(* ---- a tree that carries the proposed repair (VERIF_C14_MODEL=repaired) is compared with translate_repaired *)
-Definition check_on_repaired_tree (c : case) : bool :=
-  match k_expect c with
-  | Some x =>
-      xrbac_eqb (flat_rbac (translate_repaired (k_cfg c) (k_ixns c) (k_dflt c) (k_http c))) x
-      && forallb (fun s =>
-                    let re := re_of (sm_re s) in
-                    Bool.eqb (eval_rbac re (translate_repaired (k_cfg c) (k_ixns c) (k_dflt c) (k_http c))
-                                        (sm_conn s) (sm_req s)) (sm_rbac s)
-                    && Bool.eqb (intention_allows re (k_cfg c) (k_ixns c) (k_dflt c) (k_http c) (sm_conn s) (sm_req s))
-                                (sm_want s))
-                 (k_samples c)
-  | None => false
-  end.
-Definition mismatches_repaired_tree (cs : list case) : list N := failing check_on_repaired_tree cs.
